@@ -239,7 +239,15 @@ def judge (c : Case) (o : Json) : Bool × String :=
       | [] =>
         -- (3) every match is deleted
         if noDir then (true, "") else
-        let missing := entries.flatMap fun q => (under c.fs q).filter fun p => !del.contains p
+        -- (a matched symlink whose target directory went in the same clean is excused: a pattern with a
+        -- trailing slash stops matching it once it is broken)
+        let excused (q : P) : Bool :=
+          match kindAt c.fs q with
+          | some (.link t _) =>
+            (match resolve c.fs fuel [] t with | some r => r != [] && del.contains r | none => false)
+          | _ => false
+        let missing := entries.flatMap fun q =>
+          if excused q then [] else (under c.fs q).filter fun p => !del.contains p
         match missing with
         | [] => (true, "")
         | p :: _ =>
